@@ -41,6 +41,7 @@ def run(repo, chk):
     for f in (d, t):
         chk.touch(f)
     rule_a(chk, d)
+    rule_cancelled(chk, d)
     rule_a_done(repo, chk)
     rule_b(chk, d)
     rule_b(chk, t)
@@ -154,6 +155,20 @@ def rule_a(chk, d):
                 for _r, c in pat.method_calls(n.ast, m):
                     chk.ob('a', d.ref, 'the accounting is done for the dispatched event', bool(c.args) and src(c.args[0]) == ev,
                            loc(d, c), detail=f'`{src(c)}`', discr=f'accounting-arg:{m}')
+
+
+def rule_cancelled(chk, d):
+    """A cancelled event takes the short way out of the dispatcher.  A handler suspended on it (call()/wait()) is resumed only by the done notification,
+    which only _eventDone produces: the short way must produce it too, or the caller — and with it the completion of the caller's event — waits for ever."""
+    g = d.cfg()
+    ev = d.params[1]
+    canc = [e for n in g.nodes if n.kind == 'test' and src(n.ast) == f'{ev}.cancelled' for e in n.succ if e.kind == 'T']
+    if not canc:
+        return
+    rel = [n for n in g.nodes if n.kind == 'stmt' and (any(True for _r, _c in pat.method_calls(n.ast, '_eventDone')) or pat.fires(n.ast, 'child:done'))]
+    ok = all(e.dst in rel or Q.escapes(g, [e.dst], lambda n: n in rel, exc=()) is None for e in canc)
+    chk.ob('a', d.ref, 'a cancelled event releases the handlers that are suspended on it (the done notification of _eventDone), so that their own events can complete',
+           ok, loc(d, canc[0].src.ast), discr='cancelled-releases-waiters')
 
 
 def rule_a_done(repo, chk):
